@@ -51,17 +51,23 @@ def gen(rng, tier):
             r = rng.random()
             ws.append(0 if r < 0.15 else rng.choice([1, 2, 4, 1008, 1011, 1012, 1013, 1014, 2024, 2028][:10 if big > 1 else 7]) if r < 0.5
                       else rng.randrange(0, 400 * big) if r < 0.9 else rng.randrange(0, 1400 * big))
-        cases.append({'kind': 'stream', 'writes': ws})
+        case = {'kind': 'stream', 'writes': ws}
+        if _ % 3 == 0:
+            # a SECOND blocker alive at the same time, written alternately with this one (one input split over two
+            # outputs), or - `abandon` - a blocker left with a partial block and never finalised before this one starts
+            case['other'] = [rng.choice([1, 4, 30, 200, 1008, 1012, 1500]) if rng.random() < 0.6 else rng.randrange(0, 600) for _k in range(rng.randint(1, max(1, len(ws))))]
+            case['abandon'] = rng.random() < 0.3
+        cases.append(case)
     for n in sorted(set([0, 1, 2, 1011, 1012, 1013, 1014, 2023, 2024, 2025, 3036, 5060] +
                         [rng.randrange(0, 5000) for _ in range(40 if tier == 'quick' else 600)])):
         cases.append({'kind': 'oneshot', 'n': n})
     return cases
 
 
-def chunks(case):
+def chunks(case, which='writes'):
     out, pos = [], 0
-    for n in case['writes']:
-        out.append(coded(pos, n))
+    for n in case.get(which, ()):
+        out.append(coded(pos, n, salt=0 if which == 'writes' else 91))
         pos += n
     return out
 
@@ -69,10 +75,31 @@ def chunks(case):
 def impl(case):
     from cardutil import mciipm
     if case['kind'] == 'stream':
+        box = {}
+
         def run():
             f = io.BytesIO()
-            b = mciipm.Block1014(f)
             ws = chunks(case)
+            other = chunks(case, 'other')
+            f2 = io.BytesIO()
+            if other and case.get('abandon'):
+                b0 = mciipm.Block1014(f2)
+                for w in other:
+                    b0.write(w)            # never finalised
+                other = []
+            b = mciipm.Block1014(f)
+            b2 = mciipm.Block1014(f2) if other else None
+            if b2 is not None:
+                for i, w in enumerate(ws):
+                    b.write(w)
+                    if i < len(other):
+                        b2.write(other[i])
+                for w in other[len(ws):]:
+                    b2.write(w)
+                b.seek(0)
+                b2.seek(0)
+                box['out2'] = f2.getvalue().hex()
+                return f.getvalue()
             style = sum(case['writes']) % 3
             if style == 1 and ws:
                 # the usual copy loop: ONE buffer is refilled and a view of it is handed to write() each time
@@ -95,7 +122,10 @@ def impl(case):
             o = io.BytesIO()
             mciipm.block_1014(io.BytesIO(b''.join(chunks(case))), o)
             return o.getvalue()
-        return {'out': outcome(run, hb), 'one': outcome(one, hb)}
+        res = {'out': outcome(run, hb), 'one': outcome(one, hb)}
+        if 'out2' in box:
+            res['out2'] = 'OK ' + (box['out2'] or '-')
+        return res
     data = coded(0, case['n'])
 
     def run1():
@@ -107,7 +137,7 @@ def impl(case):
 
 def model_lines(case, io_):
     if case['kind'] == 'stream':
-        return ['blk ' + hlist(chunks(case))]
+        return ['blk ' + hlist(chunks(case))] + (['blk ' + hlist(chunks(case, 'other'))] if case.get('other') and not case.get('abandon') else [])
     data = coded(0, case['n'])
     return ['blk1 ' + hb(data), 'blk1_spec ' + hb(data)]
 
@@ -135,6 +165,16 @@ def judge(case, io_, mo):
         one = io_.get('one', '')
         if one != o and not (one.startswith('OK ') and f == (bytes.fromhex(one[3:]) if one[3:] != '-' else b'') + b'\x40' * BLK):
             ps.append({'kind': 'oracle', 'sig': 'stream-differs-from-oneshot', 'msg': 'streaming output is neither the one-shot output for the same data nor that plus one all-fill block'})
+    o2 = io_.get('out2')
+    if o2 is not None:
+        f2 = bytes.fromhex(o2[3:]) if o2[3:] != '-' else b''
+        d2 = b''.join(chunks(case, 'other'))
+        if not well_formed_blocks(f2) or payload_of(f2)[:len(d2)] != d2 or any(x != 0x40 for x in payload_of(f2)[len(d2):]):
+            ps.append({'kind': 'oracle', 'sig': 'second-live-blocker-output-wrong', 'msg': 'a second Block1014 written alternately with the first did not produce whole blocks carrying exactly its own data'})
+        elif mo is not None and len(mo) > 1:
+            need2 = 3 + 2 * BLK * ((len(d2) + B - 1) // B)
+            if mo[1][:need2] != o2[:need2]:
+                ps.append({'kind': 'corr', 'sig': 'blk-second', 'msg': 'second blocker output differs from the model'})
     if mo is not None:
         if case['kind'] == 'stream':
             # the property allows an optional trailing all-fill block, so the correspondence is taken on the
